@@ -41,6 +41,8 @@ BODIES = [
     ("let A := 1; let A := 2;", "reject"), ("?(let A := 1;) A", "reject"), ("(", "reject"),
     ("1 \"a\" add", "soft"), ("(1, 2) apply", "soft"),
     ("\"a%( 1\n %)b\"", "one"), ("(1,\n 2)", "many"), ("\"%( (1, 2)\n\n %)\"", "many"),
+    ("# c\n1", "one"), ("1 // x\n2", "multi"), ("# only a comment\n(1, 2)", "many"), ("\"a\nb\"", "one"),
+    ("1 /* c\nd */ 2", "multi"), ("// c\n1 (== 2)", "none"), ("# c\n1 )", "reject"), ("# c\n(1, 2) " + BOMB % 2, "fail"),
     ("(1, 1 2, 3)", "multi"), ("(1 2, 3, 4 5)", "multi"), ("(1 2, 3)", "multi"), ("(1, 2 3 4)", "multi"),
 ]
 
@@ -136,6 +138,17 @@ def make_plan(rng, idx):
     derive(plan)
     cfg = "opts=%d files=%d args=%d" % (len(cli["opts"]) > 0, nfiles, nargs)
     return plan, cfg
+
+
+def make_failing_plan(rng, idx):
+    """For C14: invocations whose query fails at run time in some combination."""
+    for _ in range(20):
+        plan, cfg = make_plan(rng, idx)
+        if plan["cli"].get("qclass") in ("fail", "fail-for-one-combination"):
+            plan["profile"] = "C14"
+            return plan, "cli-failure"
+    plan["profile"] = "C14"
+    return plan, "cli-failure"
 
 
 def vpath(f):
@@ -603,7 +616,27 @@ class CliStats(O.RunStats):
     pass
 
 
-def simulate(z, plan):
+def judge_failure_clause(plan, lib, resp):
+    """C14's CLI clause only: a run-time failure of a well-formed query gives
+    a message on stderr and exit status 2."""
+    if resp.cli is None or lib.get("arg_fail") or not lib.get("compile_ok") or plan["cli"].get("query") is None:
+        return None
+    opts = set(plan["cli"]["opts"])
+    quiet = bool(opts & {"-q", "--quiet", "--silent"})
+    nomsg = bool(opts & {"-s", "--no-messages"})
+    combos = [] if lib.get("no_file_opened") else lib["combos"]
+    if quiet or not any(c["error"] is not None for c in combos):
+        return None
+    argv = " ".join(repr(a) for a in plan.get("argv", []))
+    if resp.cli["status"] != 2:
+        return ("cli-runtime-failure:exit-status", "%s\nan execution fails at run time (%s) but the exit status is %d, not 2\nstderr=%r"
+                % (argv, [c["error"] for c in combos if c["error"]][0], resp.cli["status"], resp.cli["err"][:300]))
+    if not nomsg and not resp.cli["err"]:
+        return ("cli-runtime-failure:stderr", "%s\nan execution fails at run time but nothing is written to stderr" % argv)
+    return None
+
+
+def simulate(z, plan, clause_only=False):
     derive(plan)
     out = E.Outcome()
     resp = z.run(plan)
@@ -651,7 +684,7 @@ def simulate(z, plan):
     if any((n == 0) for n in lib.get("argvals", [])):
         st.probe("argument_yields_nothing")
     if out.violation is None and resp.cli is not None:
-        j = judge(plan, lib, resp)
+        j = judge_failure_clause(plan, lib, resp) if clause_only else judge(plan, lib, resp)
         if j is not None:
             v = O.Violation("cli", j[1], plan)
             v.klass_str = j[0]
@@ -660,9 +693,9 @@ def simulate(z, plan):
     return out
 
 
-def gate(z, plan, klass, fp):
+def gate(z, plan, klass, fp, clause_only=False):
     for i in range(2):
-        o = simulate(z, P.clone(plan))
+        o = simulate(z, P.clone(plan), clause_only)
         if o.violation is None:
             return False, "re-run %d did not violate" % i
         if o.violation.klass_str != klass:
@@ -672,7 +705,7 @@ def gate(z, plan, klass, fp):
     return True, ""
 
 
-def minimise(z, plan, klass, max_runs=150):
+def minimise(z, plan, klass, max_runs=150, clause_only=False):
     best = P.clone(plan)
     used = [0]
 
@@ -680,7 +713,7 @@ def minimise(z, plan, klass, max_runs=150):
         if used[0] >= max_runs:
             return False
         used[0] += 1
-        o = simulate(z, cand)
+        o = simulate(z, cand, clause_only)
         return o.violation is not None and o.violation.klass_str == klass
 
     def attempt(mut):
